@@ -361,7 +361,7 @@ fn deep_family(run: &mut Run) {
 /// periodic patterns with bounded nesting, so that length rather than depth is what is explored.
 fn long_flat(run: &mut Run) {
     let quick = run.quick();
-    let lens: Vec<usize> = if quick { vec![255, 256, 257, 300, 511, 512, 513] } else { vec![255, 256, 257, 300, 511, 512, 513, 1023, 1024, 1025, 4096, 65535, 65536, 65537, 70000] };
+    let lens: Vec<usize> = if quick { (11usize..=130).chain([255, 256, 257, 300, 511, 512, 513]).collect() } else { (11usize..=320).chain([511, 512, 513, 1009, 1023, 1024, 1025, 4096, 65535, 65536, 65537, 70000]).collect() };
     // the unit patterns: every sequence of 1..=3 symbols (258), repeated to the length and cut there
     let mut units: Vec<Vec<usize>> = vec![];
     for ulen in 1..=3usize {
